@@ -89,6 +89,72 @@ func verifC12(maxM, maxN, stmtLen int, rerun bool) {
 	}
 }
 
+// verifC12Twice: the file stops partially twice. Run 1 fails at statement k1;
+// the tail is edited and run 2 (resumed) fails again at k2 >= k1; the file is
+// edited once more and run 3 must resume iff statements 0..k2-1 are the ones
+// that were applied - the hashes recorded by a *resumed* run are what counts.
+func verifC12Twice(maxN, stmtLen int) {
+	n := verifChoice("n", maxN-1) + 2  // 2..maxN statements in runs 1 and 2
+	k1 := verifChoice("k1", n)         // 0..n-1
+	k2 := k1 + verifChoice("dk", n-k1) // k1..n-1
+	n3 := verifChoice("n3", maxN+1)    // 0..maxN statements in run 3
+	f1s := make([]string, n)
+	f2s := make([]string, n)
+	f3s := make([]string, n3)
+	for i := range f1s {
+		f1s[i] = verifString(fmt.Sprintf("a%d", i), stmtLen)
+		if i < k1 {
+			f2s[i] = f1s[i] // applied prefix untouched
+		} else {
+			f2s[i] = verifString(fmt.Sprintf("b%d", i), stmtLen)
+		}
+	}
+	for i := range f3s {
+		f3s[i] = verifString(fmt.Sprintf("c%d", i), stmtLen)
+	}
+	ctx := context.Background()
+	ops := 0
+	rrw := &vRRW{ops: &ops, failAt: -1}
+	run := func(stmts []string, failAt int) (*vDriver, error) {
+		f := &vFile{name: "1_a.sql", version: "1", desc: "a", stmts: stmts}
+		ops = 0
+		d := &vDriver{ops: &ops, failAt: failAt}
+		ex, err := NewExecutor(d, &vDir{files: []File{f}}, rrw)
+		verifAssert(err == nil, "executor")
+		return d, ex.Execute(ctx, f)
+	}
+	var see *StmtExecError
+	d1, err := run(f1s, k1)
+	verifAssert(errors.As(err, &see) && len(d1.executed) == k1, "run 1 stops at k1")
+	// the driver counts operations of this run only: statement k2 of the file is the (k2-k1)-th executed
+	d2, err := run(f2s, k2-k1)
+	verifAssert(errors.As(err, &see), "run 2 resumes and stops again")
+	verifAssert(len(d2.executed) == k2-k1, "run 2 executed statements k1..k2-1")
+	verifAssert(len(rrw.revs) == 1 && rrw.revs[0].Applied == k2 && rrw.revs[0].Total == n, "run 2 recorded progress k2")
+	d3, err := run(f3s, -1)
+	same := n3 >= k2
+	if same {
+		for i := 0; i < k2; i++ {
+			same = verifAnd(same, f3s[i] == f2s[i])
+		}
+	}
+	var hce HistoryChangedError
+	if same {
+		verifReach("resume")
+		verifAssert(err == nil, "unchanged applied prefix after two partial runs: the run resumes")
+		verifAssert(len(d3.executed) == n3-k2, "the resume executes exactly the new tail")
+		for i := range d3.executed {
+			verifAssert(d3.executed[i] == f3s[k2+i], "the resume executes the new tail in order")
+		}
+	} else {
+		verifReach("refuse")
+		verifAssert(errors.As(err, &hce), "changed applied prefix: history-changed error")
+		verifAssert(len(d3.executed) == 0, "refusal executes no statement")
+	}
+}
+
+func VerifHarness_C12_twice()    { verifC12Twice(3, 1) }
+func VerifHarness_C12_twice4()   { verifC12Twice(4, 2) }
 func VerifHarness_C12_quick()    { verifC12(3, 3, 1, false) }
 func VerifHarness_C12_rerun()    { verifC12(3, 3, 1, true) }
 func VerifHarness_C12_thorough() { verifC12(5, 5, 2, true) }
